@@ -64,15 +64,24 @@ MetricOptional == IdKeys
 TextAtoms == {"Str", "StrCtl", "StrUni", "Reent", "DispVal", "DbgVal", "EnumUnit", "Err", "ErrChain", "Level", "LevelText",
               "IdTyped", "IdHex", "KindSpan", "KindMetric", "AggCount", "AggSum", "AggLast"}
 BigAtoms == {"U64Big", "I128", "U128"}
+\* a 128-bit typed integer whose VALUE fits 64 bits (i128 / u128 are types, not magnitudes): the
+\* target has an integer for it; the statement's "they become decimal text" is about values OTLP
+\* cannot carry: either form is accepted ("intlike")
+SmallBigAtoms == {"I128Small", "U128Small"}
 FloatAtoms == {"F64", "NaN", "Inf"}
 AbsentAtoms == {"Null", "None", "OptNone"}
-Atoms == TextAtoms \cup BigAtoms \cup FloatAtoms \cup AbsentAtoms
+Atoms == TextAtoms \cup BigAtoms \cup SmallBigAtoms \cup FloatAtoms \cup AbsentAtoms
             \cup {"Bool", "I64", "Bytes", "BytesRef", "Struct", "EnumNewtype"}
-\* map key kinds: "Bytes" = a byte string, "SeqKey" = a sequence / tuple used as a key
-KeyKinds == {"Bool", "I64", "F64", "Bytes", "SeqKey"}
+\* map key kinds: "Bytes" = a byte string, "SeqKey" = a sequence / tuple used as a key,
+\* "NullKey" = the null / unit / None key, "OptKey" = Option keys (None and Some(i64)),
+\* "MapAsKey" = a map used as a key, "TupKey" = a compound key holding null, bytes, bool, float,
+\* a nested sequence and a nested map, "BytesRefKey" = a byte string streamed borrowed
+KeyKinds == {"Bool", "I64", "F64", "Bytes", "SeqKey", "NullKey", "OptKey", "MapAsKey", "TupKey", "BytesRefKey"}
 \* keys JSON object member names cannot be derived from by sval_json: the default file writer
-\* fails on them and the event is dropped (no line at all; never a mangled one)
-UnencodableKeys == {"Bytes", "SeqKey"}
+\* fails on them and the event is dropped (no line at all; never a mangled one).  For the kinds
+\* beyond text / bool / number the statement does not say what the member name is: the writer may
+\* refuse or write any well-formed member
+UnencodableKeys == {"Bytes", "SeqKey", "NullKey", "OptKey", "MapAsKey", "TupKey", "BytesRefKey"}
 
 \* the derived struct of the value pool (harness: `Rec`), field by field
 StructFields == <<
@@ -96,6 +105,7 @@ AnyOf(s) ==
       [] h = "Bool" -> <<"bool">>
       [] h = "I64" -> <<"int">>
       [] h \in BigAtoms -> <<"decstr">>
+      [] h \in SmallBigAtoms -> <<"intlike">>
       [] h \in FloatAtoms -> <<"double">>
       [] h \in TextAtoms -> <<"string">>
       [] h \in {"Bytes", "BytesRef"} -> <<"bytes">>
@@ -116,7 +126,7 @@ JsonOf(s) ==
     LET h == s[1] IN
     CASE h \in AbsentAtoms -> <<"null">>
       [] h = "Bool" -> <<"bool">>
-      [] h \in {"I64"} \cup BigAtoms -> <<"integer">>
+      [] h \in {"I64"} \cup BigAtoms \cup SmallBigAtoms -> <<"integer">>
       [] h = "F64" -> <<"number">>
       [] h \in {"NaN", "Inf"} -> <<"any">>
       [] h \in TextAtoms -> <<"string">>
@@ -144,6 +154,8 @@ AnyStreamB(s) ==
       [] h = "Bool" -> <<"bool">>
       [] h = "I64" -> <<"int">>
       [] h \in BigAtoms -> <<"decstr">>
+      \* (sval's default i128 / u128: through i64 when the value fits)
+      [] h \in SmallBigAtoms -> <<"intlike">>
       [] h \in FloatAtoms -> <<"double">>
       [] h \in TextAtoms -> <<"string">>
       [] h \in {"Bytes", "BytesRef"} -> <<"bytes">>
@@ -205,6 +217,11 @@ TermRecord(e) ==
      err |-> FirstIdx(e, "err"),          \* # 0 and an error value: its text, then every cause in chain order
      hole |-> IF e.tpl = "literal" THEN 0 ELSE FirstIdx(e, "a"),   \* the template's hole: the value's rendering inside the message
      fmt |-> e.tpl = "fmt_hole",          \* ... through the hole's formatter (`{a:>12}`-style)
+     \* an extent with a length (a range that does not run backwards) is shown as its end and its
+     \* length: the number and unit shown denote the length (truncated to the unit shown; which
+     \* unit is layout).  e.dur is the length's magnitude class
+     len |-> e.extent \in {"range", "rangeEmpty"}, dur |-> e.dur,
+     mdl |-> e.mdl,                       \* the module's shape: its first and its last segment are shown
      \* the same line on every form of the sink
      forms |-> {"stdout", "stdout colored", "stderr", "stderr colored"},
      trace |-> FirstIdx(e, "trace_id"), span |-> FirstIdx(e, "span_id")]
@@ -253,10 +270,29 @@ MetricRecord(e) ==
                       LAMBDA i : [Attr(e, i, AnyOf(ShapeAt(e, i)))
                                     EXCEPT !.opt = KeyAt(e, i) \in MetricOptional])]
 
+\* A metric sample has points only when its metric_value is a number or a sequence of numbers.
+\* Any other value (null, None, boolean, text, a sequence of texts, a sequence of sequences, a
+\* map, a struct) has no image as points: the event is still an event and every sink still
+\* accepts it - OTLP carries it as a log record (the fallback signal; all of its properties,
+\* including the metric_* ones, are then ordinary attributes).
+NumAtoms == {"I64"} \cup BigAtoms \cup SmallBigAtoms \cup FloatAtoms
+RECURSIVE NumericShape(_, _)
+NumericShape(s, inSeq) ==
+    LET h == s[1] IN
+    CASE h \in NumAtoms -> TRUE
+      [] h \in {"Seq", "Arr"} -> ~inSeq /\ NumericShape(Rest(s, 2), TRUE)
+      [] h \in {"Some", "Opt"} -> NumericShape(Rest(s, 2), inSeq)
+      [] OTHER -> FALSE
+RouteA(e) ==
+    IF e.kind = "metric"
+    THEN LET i == FirstIdx(e, "metric_value")
+         IN IF i # 0 /\ NumericShape(ShapeAt(e, i), FALSE) THEN "metric" ELSE "log"
+    ELSE e.kind
+
 OtlpRecord(e) ==
-    CASE e.kind = "log" -> LogRecord(e)
-      [] e.kind = "span" -> SpanRecord(e)
-      [] e.kind = "metric" -> MetricRecord(e)
+    CASE RouteA(e) = "log" -> LogRecord(e)
+      [] RouteA(e) = "span" -> SpanRecord(e)
+      [] RouteA(e) = "metric" -> MetricRecord(e)
 
 -----------------------------------------------------------------------------
 (* Level B: the pipeline *)
@@ -280,16 +316,38 @@ AllIdx(e) == [i \in 1..Len(e.props) |-> i]
 \* what the metrics encoder iterates: `evt.props().for_each` before F9's repair
 MetricIter(e) == IF FixF9 THEN dd ELSE AllIdx(e)
 
+\* emitter/otlp/src/data/metrics.rs `Extract`: the sval stream the metric_value is run through.
+\* null / bool / text_begin answer sval::error(); i64 / f64 / u128 / i128 push a point; a sequence
+\* inside a sequence is an error; everything Extract does not override arrives through sval's
+\* defaults (Option: its content or null; a map / record: nested sequences).  An error makes the
+\* metrics encoder decline, and OtlpInner::emit falls through to traces (no: kind is metric) and logs.
+RECURSIVE ExtractB(_, _)
+ExtractB(s, inSeq) ==
+    LET h == s[1] IN
+    CASE h \in AbsentAtoms -> "error"
+      [] h = "Bool" -> "error"
+      [] h \in TextAtoms -> "error"
+      [] h \in NumAtoms -> "points"
+      [] h \in {"Seq", "Arr"} -> IF inSeq THEN "error" ELSE ExtractB(Rest(s, 2), TRUE)
+      [] h \in {"Some", "Opt"} -> ExtractB(Rest(s, 2), inSeq)
+      [] h \in {"MapStr", "MapKey", "Struct", "EnumNewtype"} -> "error"
+      [] OTHER -> "error"
+RouteB(e) ==
+    IF e.kind = "metric"
+    THEN IF GetIdx(e, "metric_value") # 0 /\ ExtractB(ShapeAt(e, GetIdx(e, "metric_value")), FALSE) = "points"
+         THEN "metric" ELSE "log"
+    ELSE e.kind
+
 LiftB(e) ==
-    CASE e.kind = "log" ->
+    CASE RouteB(e) = "log" ->
             [sev |-> LastAssigned(e, dd, "lvl"), trace |-> LastAssigned(e, dd, "trace_id"),
              span |-> LastAssigned(e, dd, "span_id")]
-      [] e.kind = "span" ->
+      [] RouteB(e) = "span" ->
             [name |-> GetIdx(e, "span_name"), sev |-> LastAssigned(e, dd, "lvl"),
              trace |-> LastAssigned(e, dd, "trace_id"), span |-> LastAssigned(e, dd, "span_id"),
              parent |-> LastAssigned(e, dd, "span_parent"),
              err |-> IF LastAssigned(e, dd, "err") # 0 THEN GetIdx(e, "err") ELSE 0]
-      [] e.kind = "metric" ->
+      [] RouteB(e) = "metric" ->
             [name |-> GetIdx(e, "metric_name"), value |-> GetIdx(e, "metric_value"),
              unit |-> LastAssigned(e, MetricIter(e), "metric_unit")]
 
@@ -303,14 +361,14 @@ LogAttrsB(e) ==
     IN cat(1)
 
 AttrsB(e) ==
-    CASE e.kind = "log" ->
+    CASE RouteB(e) = "log" ->
             \* streamed in iteration order; the err arm streams its attributes in place.
             \* Order is not part of the statement: compared as a bag (see SameAttrs).
             LogAttrsB(e)
-      [] e.kind = "span" ->
+      [] RouteB(e) = "span" ->
             MapSeq(SelectSeq(dd, LAMBDA i : KeyAt(e, i) \notin SpanLifted),
                    LAMBDA i : Attr(e, i, AnyStreamB(ShapeAt(e, i))))
-      [] e.kind = "metric" ->
+      [] RouteB(e) = "metric" ->
             MapSeq(SelectSeq(MetricIter(e),
                              LAMBDA i : KeyAt(e, i) \notin (MetricLifted \cup MetricOptional)),
                    LAMBDA i : Attr(e, i, AnyStreamB(ShapeAt(e, i))))
@@ -367,7 +425,7 @@ Required(s) == SelectSeq(s, LAMBDA a : ~a.opt)
 \* F17: a user property literally named like a synthesised attribute together with `err`
 \* in the logs signal (the statement's two clauses cannot both hold there)
 F17Case(e) ==
-    /\ e.kind = "log"
+    /\ RouteA(e) = "log"
     /\ "err" \in KeysOf(e)
     /\ \/ "exception.message" \in KeysOf(e)
        \/ "exception.stacktrace" \in KeysOf(e)
@@ -378,9 +436,9 @@ AttrKeysUnique ==
                \A k \in SeqKeys(out.otlp) : CountKey(out.otlp, k) = 1
 
 LiftedOf(e) ==
-    CASE e.kind = "log" -> LogLifted
-      [] e.kind = "span" -> SpanLifted
-      [] e.kind = "metric" -> MetricLifted \cup MetricOptional
+    CASE RouteA(e) = "log" -> LogLifted
+      [] RouteA(e) = "span" -> SpanLifted
+      [] RouteA(e) = "metric" -> MetricLifted \cup MetricOptional
 
 \* every property that has no dedicated field appears exactly once under its key
 Own(s) == SelectSeq(s, LAMBDA a : ~a.syn)
